@@ -69,6 +69,8 @@ def run(ctx):
                         continue
                     n += 1
                     cases.append(row_case("c04_%d" % n, lim, lens, binary))
+                    if rng.random() < 0.3:
+                        cases[-1].wcap = rng.choice([1, 2, 7])     # a transport that accepts only part of each write
     ctx.diff_conn(cases, oracle=oracle, nontrivial=lambda c, o: c.meta["msglen"] >= c.lim,
                   classify=lambda c, o: ["lim_%d" % c.lim, "k_%d" % (c.meta["msglen"] // c.lim)])
     real = []
